@@ -50,6 +50,12 @@ func c04Build(seed uint64, shape string) (*lib.Build, *lib.Build, []string) {
 		}
 		nb.PutDir("emptydir")
 		nb.PutSymlink("lnk", "x")
+		if r.Chance(0.5) {
+			// two files whose paths differ only by letter case (legal on a case-sensitive file system)
+			nb.PutFile("docs/README", lib.RandomBytes(r.PickI64(c04Sizes[:18]), r.Uint64()))
+			nb.PutFile("docs/readme", lib.RandomBytes(r.PickI64(c04Sizes[:18]), r.Uint64()))
+			feats = append(feats, "case-twins")
+		}
 		return ob, nb, feats
 	case "tiny":
 		p := lib.GenPair(seed, lib.GenOpts{ManyTiny: true, MaxFile: 2000})
